@@ -539,7 +539,7 @@ func (t *patricia[V]) Rank(key string) int {
 
 	if t.root != nil {
 		t._traverse(t.root.left, Ascending, func(n *patriciaNode[V]) bool {
-			if n.key.String() == key {
+			if n.key.String() >= key {
 				return false
 			}
 
